@@ -97,6 +97,75 @@ theorem delayIter_queue_ops (g : Gen σ α) (m : SimModel α) (times : List α) 
       · left; rfl
   · left; rfl
 
+/-! ### The delay+volume loop treats the two parts of a reaction the same way -/
+
+/-- a queue step (`step_type` 2) of the delay+volume loop delivers the earliest slot and advances the queue. -/
+theorem dv_queue_branch (g : Gen σ α) (m : SimModel α) (vm : VolModel α) (times : List α) (s : LoopState σ α)
+    (d : DVDecision σ α) (hq : d.stepType = 2) :
+    (dvApply g m vm times s d).x = deliver m s.q d.x ∧ (dvApply g m vm times s d).q = s.q.advance
+      ∧ (dvApply g m vm times s d).t = d.tNew ∧ (dvApply g m vm times s d).vol = s.vol := by
+  unfold dvApply deliver
+  simp [hq]
+
+/-- the decision takes the queue branch only when the queue time is not later than the tick and not later than the
+proposed reaction time, and then the clock moves to that queue time. -/
+theorem dvDecide_queue (g : Gen σ α) (m : SimModel α) (times : List α) (s : LoopState σ α)
+    (h : (dvDecide g m times s).stepType = 2) :
+    (dvDecide g m times s).tNew = s.q.next ∧ s.q.next ≤ s.nextTick := by
+  unfold dvDecide at h ⊢
+  simp only at h ⊢
+  generalize dvPropose g m times s = pr at h ⊢
+  revert h
+  cases hr : decide (pr.proposed < s.nextTick ∧ pr.proposed < s.q.next) <;>
+    cases hc : decide (s.nextTick < s.q.next) <;> simp
+  · simpa using hc
+  · split_ifs <;> simp
+  · split_ifs <;> simp
+
+/-- **a firing with a positive delay** in the delay+volume loop: immediate part now, delayed part queued once. -/
+theorem dv_fire_positive (g : Gen σ α) (m : SimModel α) (vm : VolModel α) (times : List α) (s : LoopState σ α)
+    (d : DVDecision σ α) (h0 : d.stepType = 0)
+    (j : Nat) (hj : sampleDiscreteFrom d.a ((g d.gs).1 * d.Lambda) = (j : Int))
+    (delay : α) (g3 : σ) (hd : computeDelay g m d.p j (g d.gs).2 = some (delay, g3)) (hpos : 0 < delay) :
+    (dvApply g m vm times s d).x = addCol d.x (colOf m.U j)
+      ∧ (dvApply g m vm times s d).q = s.q.add (d.tNew + delay) j 1
+      ∧ (dvApply g m vm times s d).t = d.tNew := by
+  unfold dvApply
+  have hnn : ¬ ((j : Int) < 0) := by omega
+  simp [h0, hj, hnn, hd, hpos]
+
+/-- a non-positive delay acts as zero delay there too. -/
+theorem dv_fire_nonpositive (g : Gen σ α) (m : SimModel α) (vm : VolModel α) (times : List α) (s : LoopState σ α)
+    (d : DVDecision σ α) (h0 : d.stepType = 0)
+    (j : Nat) (hj : sampleDiscreteFrom d.a ((g d.gs).1 * d.Lambda) = (j : Int))
+    (delay : α) (g3 : σ) (hd : computeDelay g m d.p j (g d.gs).2 = some (delay, g3)) (hneg : delay ≤ 0) :
+    (dvApply g m vm times s d).x = addCol (addCol d.x (colOf m.U j)) (colOf m.D j)
+      ∧ (dvApply g m vm times s d).q = s.q
+      ∧ (dvApply g m vm times s d).t = d.tNew := by
+  unfold dvApply
+  have hnn : ¬ ((j : Int) < 0) := by omega
+  have hnp : ¬ (delay > 0) := not_lt.mpr hneg
+  simp [h0, hj, hnn, hd, hnp]
+
+/-- **no other queue operation** in the delay+volume loop either: afterwards the queue is the queue before, that queue
+advanced by one slot, or that queue with a single insertion of amount 1 (so `C20.queue_exactly_once` applies). -/
+theorem delayVolumeIter_queue_ops (g : Gen σ α) (m : SimModel α) (vm : VolModel α) (times : List α) (s : LoopState σ α) :
+    (delayVolumeIter g m vm times s).q = s.q ∨ (delayVolumeIter g m vm times s).q = s.q.advance
+      ∨ ∃ t j, (delayVolumeIter g m vm times s).q = s.q.add t j 1 := by
+  unfold delayVolumeIter dvApply
+  generalize dvDecide g m times s = d
+  simp only
+  split_ifs
+  · left; rfl
+  · split
+    · left; rfl
+    · split_ifs
+      · right; right; exact ⟨_, _, rfl⟩
+      · left; rfl
+  · left; rfl
+  · right; left; rfl
+  · left; rfl
+
 /-! ### Simulators without delay support apply both parts at the firing time -/
 
 /-- the ordinary SSA step adds the immediate and the delayed column together when a reaction fires. -/
